@@ -13,7 +13,14 @@ mismatches and inconsistent-history closures), element types Rat and Fp.
 Mixed constant / variable record streams (constant first, variable first, a variable of another
 WengertList first or later) are fed systematically to from_iters (either output), from_iter
 (matching and non-matching target shape), map and map_mut; the Err variant (0
-InconsistentHistory, 1 Empty, 2 Shape) is part of the compared outcome."""
+InconsistentHistory, 1 Empty, 2 Shape) is part of the compared outcome.
+(8 kind params srcs): containers whose SOURCE is a generic view adaptor over other containers
+(range, mask, reverse, rename, access, transpose, index+expansion, chain, stack+index; matrix
+range / reverse / partition quadrants), systematically for every kind x D x pairing followed by
+every unary kind, the binary kinds x modes between two such views, matmul, map / map_mut,
+from_iter(s), and views of views.  (9 tensor shape colmajor take (e ...) a): from_iters::<N> for
+N = 1..4 (N = 1 also through from_iter) with matching / non-matching target shapes, truncated and
+EMPTY record streams, consistent / mixed histories per output."""
 import itertools
 from tools.vlib import sx
 
@@ -197,6 +204,158 @@ def view_cases(ty, quick):
                 dt = [0, tensor, 1, (tshape(2, [c, r]) if tensor else mshape(c, r)), data(ty, n, 3)]
                 yield sx([6, ty, 2, [da, dt, [7, 3, 1], [3, 0, 2]], [3]])
                 yield sx([6, ty, 2, [da, dt, [7, 3, 1], [3, 2, 0]], [3]])
+
+
+def view_params(kind, lens):
+    """parameter sets of view kind `kind` over a source with dimension lengths `lens`"""
+    D = len(lens)
+    if kind == 0:
+        yield [[min(1, l - 1) for l in lens], [l - min(1, l - 1) for l in lens]]
+        if any(l > 1 for l in lens):
+            yield [[0] * D, [max(1, l - 1) for l in lens]]
+    elif kind == 1:
+        yield [[0] * D, [1 if l > 1 else 0 for l in lens]]
+        if any(l > 2 for l in lens):
+            yield [[1 if l > 2 else 0 for l in lens], [1 if l > 2 else 0 for l in lens]]
+    elif kind == 2:
+        yield [[1] * D]
+        if D > 1:
+            yield [[i % 2 for i in range(D)]]
+    elif kind == 3:
+        yield [[5, 6, 7][:D]]
+    elif kind in (4, 5):
+        if D > 1:
+            yield [list(reversed(range(D)))]
+        if D == 3:
+            yield [[1, 2, 0]]
+        if D == 1:
+            yield [[0]]
+    elif kind == 6:
+        if D in (2, 3):
+            for k in range(D):
+                for p in (0, D - 1):
+                    yield [[k, lens[k] - 1, p, 9]]
+    elif kind == 7:
+        for k in range(D):
+            yield [[k]]
+    elif kind == 8:
+        if D in (1, 2):
+            for p in range(D + 1):
+                for j in (0, 1):
+                    yield [[p, j]]
+    elif kind == 9:
+        yield []
+    elif kind == 13:
+        if lens[0] > 1 and lens[1] > 1:
+            for q in range(4):
+                yield [[1, lens[1] - 1, q]]
+
+
+def select_cases(ty, quick):
+    """generic source views (op 8) of every kind, followed by the operation kinds"""
+    k = lambda v: num(ty, v)
+    shapes = {1: [[4], [1]], 2: [[2, 3], [3, 1]], 3: [[2, 2, 2], [2, 1, 3]]}
+    for kind_name in ("t1", "t2", "t3", "m"):
+        tensor = kind_name != "m"
+        D = int(kind_name[1]) if tensor else 2
+        all_lens = shapes[D] if tensor else [[2, 3], [3, 2]]
+        if quick:
+            all_lens = all_lens[:1] if D != 2 else all_lens
+        kinds = range(10) if tensor else (0, 2, 9, 13)
+        for lens in all_lens:
+            sh = tshape(D, lens) if tensor else mshape(*lens)
+            n = elements(sh)
+            for vkind in kinds:
+                two = vkind in (7, 8)
+                for params in view_params(vkind, lens):
+                    for va in (1, 0):
+                        da = [0, tensor, va, sh, data(ty, n, 0)]
+                        db = [0, tensor, va, sh, data(ty, n, 4)]           # same history as da (chain / stack)
+                        view = [8, vkind, params, [0, 1] if two else [0]]  # env 2
+                        for code in UN_CODES:
+                            for assign in ((0, 1) if code in (0, 1, 6, 12, 15, 17) or not quick else (code % 2,)):
+                                yield sx([6, ty, D, [da, db, view, [1, assign, code, k(3), 2]], [3]])
+                        for vb in (1, 0):
+                            # a second view of the same kind over containers of the other pairing
+                            dc = [0, tensor, vb, sh, data(ty, n, 7)]
+                            dd = [0, tensor, vb, sh, data(ty, n, 2)]
+                            prog = [da, db, view, dc, dd, [8, vkind, params, [3, 4] if two else [3]]]   # env 5
+                            for mode in range(4):
+                                for code in range(6):
+                                    if mode == 0 and code > 1:
+                                        continue
+                                    if quick and code in (3, 4) and mode in (1, 2):
+                                        continue
+                                    yield sx([6, ty, D, prog + [[2, mode, code, 2, 5]], [6]])
+                                    yield sx([6, ty, D, prog + [[2, mode, code, 5, 2]], [6]])
+                            if D == 2:
+                                # view times the transposed view (names stay with TensorTranspose; a
+                                # matrix is transposed through reverse + from_iter column major)
+                                tr = [8, 5, [[1, 0]], [5]] if tensor else [5, 0, mshape(1, 1), 1, [0], 5]
+                                yield sx([6, ty, 2, prog + [tr, [3, 2, 6]], [7]])
+                                yield sx([6, ty, 2, prog + [tr, [3, 6, 2]], [7]])
+                        yield sx([6, ty, D, [da, db, view, [2, 1, 2, 2, 2]], [3]])
+                        for e in list(closures(ty))[:4]:
+                            for mut in (0, 1):
+                                yield sx([6, ty, D, [da, db, view, [4, mut, e, 2]], [3]])
+                        yield sx([6, ty, D, [da, db, view, [6, [4, 2, [0], [0]], [3, 10, k(1), [0]], 2]], [3, 4]])
+                        # the view's records collected again (row major, and column major for matrices)
+                        for cm in ((0,) if tensor else (0, 1)):
+                            for m in (n, n - 1, 1):
+                                if m >= 1:
+                                    yield sx([6, ty, D, [da, db, view, [9, 0, mshape(1, m), cm, m, [[0], [3, 12, k(2), [0]]], 2]], [3, 4]])
+                        # a view of the view
+                        for k2 in ((2, 4, 0) if tensor else (2, 0)):
+                            yield sx([6, ty, D, [da, db, view, [8, k2, [[1] * D] if k2 == 2 else
+                                                         ([list(reversed(range(D)))] if k2 == 4 else [[0] * D, [1] * D]), [2]],
+                                               [1, 0, 1, k(0), 3]], [4]])
+    # sources of different histories / kinds are outside the language (bad case on both sides);
+    # a view over a result (not a declaration), and over a constants container made by detaching
+    sh = tshape(2, [2, 2])
+    da = [0, 1, 1, sh, data(ty, 4, 0)]
+    yield sx([6, ty, 2, [da, [1, 0, 1, k(0), 0], [8, 2, [[1, 0]], [1]], [2, 2, 2, 2, 0]], [3]])
+    yield sx([6, ty, 2, [da, [7, 3, 0], [8, 0, [[0, 1], [2, 1]], [1]], [2, 1, 0, 0, 0]], [2, 3]])
+    yield sx([6, ty, 2, [da, [1, 0, 1, k(0), 0], [8, 7, [[0]], [0, 1]], [1, 0, 3, k(0), 2]], [3]])
+
+
+def collect_cases(ty, quick):
+    """from_iters::<N> (op 9), N = 1..4: right / wrong target shapes, truncated and empty streams,
+    consistent and mixed histories per output"""
+    k = lambda v: num(ty, v)
+    ms = list(mixed(ty))
+    for kind_name in ("t1", "t2", "t3", "m"):
+        tensor = kind_name != "m"
+        D = int(kind_name[1]) if tensor else 2
+        lens = {1: [3], 2: [2, 2], 3: [2, 1, 2]}[D] if tensor else [2, 3]
+        sh = tshape(D, lens) if tensor else mshape(*lens)
+        n = elements(sh)
+        for va in (1, 0):
+            da = [0, tensor, va, sh, data(ty, n, 0)]
+            for N in (1, 2, 3, 4):
+                outs = list(range(1, N + 1))
+                plain = [[0], [3, 12, k(2), [0]], [2, [0]], [4, 0, [0], [1, k(1)]]][:N]
+                for cm in ((0,) if tensor else (0, 1)):
+                    for take in (n, n + 3, n - 1, 1, 0):
+                        m = min(take, n)
+                        for tgt_tensor, tsh in ((1, tshape(D, [max(m, 1)] + [1] * (D - 1))), (0, mshape(1, max(m, 1))),
+                                                (1, tshape(D, [m + 1] + [1] * (D - 1))), (0, mshape(2, m + 1)),
+                                                (1, sh if tensor else tshape(D, [n] + [1] * (D - 1))), (0, mshape(n, 1))):
+                            yield sx([6, ty, D, [da, [9, tgt_tensor, tsh, cm, take, plain, 0]], outs])
+                    # mixed histories: output j fails, the others do not
+                    for j in range(N):
+                        for bad in ms[3:] if not quick else ms[3:9:2]:
+                            es = [bad if i == j else plain[i] for i in range(N)]
+                            yield sx([6, ty, D, [da, [9, tensor, sh, cm, n, es, 0]], outs])
+                            yield sx([6, ty, D, [da, [9, tensor, tshape(D, [n + 1] + [1] * (D - 1)) if tensor else mshape(1, n + 1),
+                                                      cm, n, es, 0]], outs])
+                # the outputs feed later operations
+                if N >= 2:
+                    yield sx([6, ty, D, [da, [9, tensor, sh, 0, n, plain, 0], [2, 1, 2, 1, 2], [1, 1, 1, k(0), N + 1]], [N + 2]])
+        # invalid tensor target shapes: a zero length, duplicate names
+        da = [0, tensor, 1, sh, data(ty, n, 0)]
+        yield sx([6, ty, D, [da, [9, 1, tshape(D, [0] + [1] * (D - 1)), 0, n, [[0]], 0]], [1]])
+        if D >= 2:
+            yield sx([6, ty, D, [da, [9, 1, tshape(D, [n] + [1] * (D - 1), [3] * D), 0, n, [[0], [0]], 0]], [1, 2]])
 
 
 def float_cases():
@@ -395,7 +554,7 @@ def random_program(rng):
                 # may be an inconsistent history (program ends) or a constants container
                 if "(5 " in sx(e) and ea["var"] and elements(ea["shape"]) > 1:
                     break
-        elif r < 0.93:
+        elif r < 0.90:
             n = elements(ea["shape"])
             tgt_tensor = rng.random() < 0.5
             colmajor = (not ea["tensor"]) and rng.random() < 0.4
@@ -425,6 +584,52 @@ def random_program(rng):
             env.append(dict(ea, tensor=tgt_tensor, shape=tsh, bits=bits))
             if "(5 " in sx(e) and elements(ea["shape"]) > 1:
                 break
+        elif r < 0.95 and rng.random() < 0.5:
+            # a generic view of a (range / reverse / access / transpose / rename / quadrant)
+            lens = [d[1] for d in ea["shape"]]
+            names = [d[0] for d in ea["shape"]]
+            Dv = len(lens)
+            vk = rng.choice([0, 2, 3, 4, 5, 1, 9] if ea["tensor"] else [0, 2, 13, 9])
+            ps = list(view_params(vk, lens))
+            if not ps:
+                continue
+            params = rng.choice(ps)
+            if vk == 0:
+                nsh = [[names[i], params[1][i]] for i in range(Dv)]
+            elif vk == 1:
+                nsh = [[names[i], lens[i] - params[1][i]] for i in range(Dv)]
+            elif vk == 3:
+                nsh = [[params[0][i], lens[i]] for i in range(Dv)]
+            elif vk == 4:
+                nsh = [[names[k], lens[k]] for k in params[0]]
+            elif vk == 5:
+                nsh = [[names[i], lens[params[0][i]]] for i in range(Dv)]
+            elif vk == 13:
+                rr, cc, q = params[0]
+                nsh = mshape(rr if q < 2 else lens[0] - rr, cc if q % 2 == 0 else lens[1] - cc)
+            else:
+                nsh = ea["shape"]
+            ops.append([8, vk, params, [a]])
+            env.append(dict(ea, shape=nsh))
+        elif r < 0.95:
+            # from_iters::<N>, N = 1..4, sometimes truncated / with a wrong target shape
+            N = rng.choice([1, 2, 3, 4])
+            n = elements(ea["shape"])
+            take = rng.choice([n, n, n, n + 1, max(n - 1, 0), 0])
+            m = min(take, n)
+            tgt_tensor = rng.random() < 0.5
+            tsh = (tshape(D, [max(m, 1)] + [1] * (D - 1)) if tgt_tensor else mshape(1, max(m, 1)))
+            if rng.random() < 0.1:
+                tsh = (tshape(D, [m + 1] + [1] * (D - 1)) if tgt_tensor else mshape(2, m + 1))
+            es = [random_closure(rng, ty, rng.choice([0, 1, 2]), rng.random() < 0.3) for _ in range(N)]
+            bits = ea["bits"] * max(closure_growth(e) for e in es) + 8
+            if bits > limit:
+                continue
+            ops.append([9, tgt_tensor, tsh, (not ea["tensor"]) and rng.random() < 0.3, take, es, a])
+            if m == 0 or elements(tsh) != m or any("(5 " in sx(e) or "(6)" in sx(e) for e in es):
+                break
+            for _ in range(N):
+                env.append(dict(ea, tensor=tgt_tensor, shape=tsh, bits=bits))
         else:
             e1 = random_closure(rng, ty, 2, rng.random() < 0.5)
             e2 = random_closure(rng, ty, 2, rng.random() < 0.5)
@@ -447,8 +652,10 @@ def gen(tier, rng):
     yield from systematic(quick)
     for ty in (0, 1):
         yield from view_cases(ty, quick)
+        yield from select_cases(ty, quick)
+        yield from collect_cases(ty, quick)
     yield from float_cases()
-    for _ in range(7000 if quick else 80000):
+    for _ in range(7000 if quick else 50000):
         yield random_program(rng)
 
 
@@ -460,7 +667,7 @@ def nontrivial(case, model_out):
 
 def distribution(lines):
     from tools.vlib import parse_sx
-    names = {0: "decl", 1: "unary", 2: "binary", 3: "matmul", 4: "map", 5: "from_iter", 6: "from_iters", 7: "view"}
+    names = {0: "decl", 1: "unary", 2: "binary", 3: "matmul", 4: "map", 5: "from_iter", 6: "from_iters", 7: "view", 8: "select_view", 9: "collect_n"}
     kinds, lens, tys = {}, {}, {}
     mixed_streams = sum(1 for c in lines if "(5 (" in c or "(5 (0)" in c)
     for c in lines:
